@@ -426,6 +426,10 @@ def replay(prop_id, path):
     res = _run_one(mod, rep["history"][-1] if rep.get("history") else rep["scenario"])
     findings = load_findings()
     hit = [v for v in res["violations"] if v["rule"] == rep["rule"]]
+    known = [match_finding(findings, prop_id, v) for v in hit]
+    if hit and all(k is not None for k in known):
+        print(f"KNOWN-FINDING: property={prop_id} {known[0]['text']} [{known[0]['id']}]")
+        return 0
     if hit:
         same_fp = res["fingerprint"] == rep.get("fingerprint")
         print(f"VIOLATION property={prop_id} replay={path}")
